@@ -23,8 +23,8 @@ acc C05-date-day-of-month C05 yyyy-mm-dd,xs:date '*' "dates are validated by a r
 acc C06-duplicated-sequence-remove-then-add C06 interchangeable,time,credit,lyric,key,ornaments,sound '*' "time / interchangeable / credit / lyric / key / ornaments / sound: after removing a child of a repeated group (duplicated container), a remaining or re-added child is missing from the ordered view and the output"
 acc C07-note-ties-then-grace C07 note '*' "note: tie, tie, grace, tie: after the intelligent-choice re-attachment dropped a tie from the matcher, a third tie is accepted although the schema allows two (thorough tier only)"
 acc C06-note-ties-then-grace C06 note '*' "note: add(tie), add(tie), add(grace): the intelligent-choice re-attachment drops one tie from the ordered view and the output"
+acc C10-failed-replace-readds-old-child C10 '*' '*' "a refused call that went through remove-and-re-add or duplication (different-name replace_child, wrong forward) leaves matcher flags that change later acceptance"
 acc C10-metronome-refused-serialisation C10 metronome '*' "metronome: a refused to_string changes the later verdict / acceptance"
-acc C10-failed-replace-readds-old-child C10 credit,lyric,listen,notehead-text,harmony,key,note,part-list,score-part,sound,time,interchangeable,ornaments,direction-type '*' "a refused call that went through remove-and-re-add or duplication (different-name replace_child, wrong forward) leaves matcher flags that change later acceptance"
 acc C11-removal-leaves-matcher-flags C11 '*' '*' "remove(): force_validate / chosen_child / duplicated containers are not reset: an optional child added and removed is reported as required, alternatives stay blocked, serialisation verdict differs from a rebuilt twin"
 acc C12-first-fit-matcher-rejections C12 '*' '*' "children with a unique valid arrangement (or still compatible with the children held) are refused or misordered in types with repeated names / repeated groups: credit, harmony, key, lyric, metronome, note, time, interchangeable, part-list, score-part, sound, ornaments, direction-type"
 acc C14-forward-placement-lost C14 '*' '*' "deepcopy re-adds the children without their forward placement: copies of elements built with add_child(forward=k) serialise differently or refuse"
